@@ -2,7 +2,7 @@
    Polylist.triangleset computes, for every vector of polygon lengths, the fan around each
    polygon's first corner in polygon order; naturality; counts; per-polygon = whole. *)
 From Coq Require Import List Bool ZArith Arith Lia ZifyNat.
-From PC Require Import Base.Outcome Base.Py Base.PySlice Model.Strips Proofs.Strips Model.Triangulate.
+From PC Require Import Base.Outcome Base.Py Base.PySlice Base.NpProg Gen.Triangulate Model.Strips Proofs.Strips Model.Triangulate.
 Import ListNotations.
 Local Open Scope nat_scope.
 Ltac Zify.zify_post_hook ::= Z.div_mod_to_equations.
@@ -337,10 +337,11 @@ Qed.
 Lemma selectors_eq vc :
   selectors (total vc) vc = Ok (map Z.of_nat (sel_from 0 vc), map Z.of_nat (fp_of vc)).
 Proof.
-  unfold selectors, cumsum. rewrite starts_eq, last1_eq, last2_eq.
+  unfold selectors, cumsum, tri_clears. rewrite starts_eq.
+  cbn [apply_clears]. unfold clear_idx. cbn [fst snd]. rewrite last1_eq.
   assert (R1 : forall k, In k (last1_from 0 vc) -> k < length (repeat true (total vc))).
   { intros k Hk. rewrite repeat_length. apply last1_range in Hk. lia. }
-  rewrite np_put_nat by exact R1. cbn [obind].
+  rewrite np_put_nat by exact R1. cbn [obind]. rewrite last2_eq.
   assert (R2 : forall k, In k (last2_from 0 vc) ->
                          k < length (set_all false (last1_from 0 vc) (repeat true (total vc)))).
   { intros k Hk. rewrite set_all_length by exact R1. rewrite repeat_length. apply last2_range in Hk. lia. }
@@ -416,6 +417,7 @@ Proof.
     pose proof (tri_labels_length vc 0) as HL. pose proof (tri_count_le vc) as HC.
     unfold tri_labels. destruct (tri_labels_from 0 vc); [reflexivity | simpl in HL; lia].
   - rewrite <- Erows. clear Erows.
+    unfold tri_gathers. cbn [fst snd gidx].
     rewrite zsub_eq.
     replace (map (fun j => (j + 1)%Z) (map Z.of_nat (sel_from 0 vc))) with (map Z.of_nat (map S (sel_from 0 vc)))
       by (rewrite !map_map; apply map_ext; intro j; lia).
@@ -439,9 +441,9 @@ Proof.
   destruct rows as [|x rows]; [reflexivity|].
   unfold gather3. cbn [map]. change (f x :: map f rows) with (map f (x :: rows)).
   rewrite !np_take_map.
-  destruct (np_take (x :: rows) (zipwith Z.sub sel fp)) as [a|e]; [|reflexivity].
-  destruct (np_take (x :: rows) (map (fun j => (j + 1)%Z) sel)) as [b|e]; [|reflexivity].
-  destruct (np_take (x :: rows) (map (fun j => (j + 2)%Z) sel)) as [c|e]; [|reflexivity].
+  destruct (np_take (x :: rows) (gidx (fst (fst tri_gathers)) sel fp)) as [a|e]; [|reflexivity].
+  destruct (np_take (x :: rows) (gidx (snd (fst tri_gathers)) sel fp)) as [b|e]; [|reflexivity].
+  destruct (np_take (x :: rows) (gidx (snd tri_gathers) sel fp)) as [c|e]; [|reflexivity].
   cbn [omap obind]. apply stack3_map.
 Qed.
 
@@ -493,12 +495,26 @@ Proof.
   replace (i + 1) with (S i) by lia. reflexivity.
 Qed.
 
-Lemma poly_triangles_fan {A} (poly : list A) : poly_triangles poly = fan_of poly.
+Lemma py_index_nat {A} (d : A) l k : k < length l -> py_index l (Z.of_nat k) = Ok (nth k l d).
+Proof.
+  intro H. unfold py_index. rewrite norm_index_nat by exact H.
+  rewrite (nth_error_nth' l d) by exact H. reflexivity.
+Qed.
+
+Lemma poly_triangles_fan {A} (poly : list A) : poly_triangles poly = Ok (fan_of poly).
 Proof.
   destruct poly as [|d rest]; [reflexivity|].
-  rewrite (fan_of_nth d). unfold poly_triangles. rewrite <- flat_map_single.
-  apply flat_map_ext_in. intros i Hi. apply in_seq in Hi.
-  rewrite !(nth_error_nth' _ d) by lia. reflexivity.
+  set (poly := d :: rest).
+  rewrite (fan_of_nth d). unfold poly_triangles, poly_col, poly_indices, poly_range_sub.
+  cbn [fst snd ieval].
+  rewrite (omapM_map_ok _ (fun z => (nth 0 poly d, nth (Z.to_nat z + 1) poly d, nth (Z.to_nat z + 2) poly d))).
+  - f_equal. rewrite map_map. replace (Z.to_nat (Z.of_nat (length poly) - 2)) with (length poly - 2) by lia.
+    apply map_ext. intro i. rewrite Nat2Z.id. reflexivity.
+  - intros z Hz. apply in_map_iff in Hz. destruct Hz as [i [Hi Hin]]. subst z. apply in_seq in Hin.
+    change 0%Z with (Z.of_nat 0). rewrite (py_index_nat d) by (unfold poly; simpl; lia). cbn [obind].
+    replace (Z.of_nat i + 1)%Z with (Z.of_nat (i + 1)) by lia. rewrite (py_index_nat d) by lia. cbn [obind].
+    replace (Z.of_nat i + 2)%Z with (Z.of_nat (i + 2)) by lia. rewrite (py_index_nat d) by lia. cbn [obind].
+    rewrite Nat2Z.id. reflexivity.
 Qed.
 
 Lemma nth_sub {A} (d : A) rows s c i : s + c <= length rows -> i < c ->
@@ -580,9 +596,28 @@ Proof.
 Qed.
 
 Theorem per_polygon_is_spec {A} vc (rows : list A) :
-  concat (map poly_triangles (polygon_rows vc rows)) = tri_spec vc rows.
+  omap (@concat _) (omapM poly_triangles (polygon_rows vc rows)) = Ok (tri_spec vc rows).
 Proof.
-  rewrite polygon_rows_eq. unfold tri_spec. f_equal. apply map_ext. intro p. apply poly_triangles_fan.
+  rewrite polygon_rows_eq. unfold tri_spec.
+  rewrite (omapM_map_ok _ fan_of) by (intros p _; apply poly_triangles_fan). reflexivity.
+Qed.
+
+(* every array of a Polygon is cut with the same three subscripts *)
+Lemma polygon_arrays_same :
+  poly_vertices = poly_indices /\ poly_normals = poly_indices /\ poly_normal_indices = poly_indices /\
+  poly_texcoords = poly_indices /\ poly_texcoord_indices = poly_indices.
+Proof. repeat split; reflexivity. Qed.
+
+(* ------------------------------------------------------------------ the bound path *)
+
+Lemma bound_attr_copy {V} (unbound : tsfield -> V) f : bound_attr unbound f = Some (unbound f).
+Proof. destruct f; reflexivity. Qed.
+
+Theorem bound_triangleset_eq {A} vc (rows : list A) :
+  bound_triangleset vc rows = omap Some (triangleset vc rows).
+Proof.
+  unfold bound_triangleset. destruct (triangleset vc rows) as [ts|e]; [|reflexivity].
+  cbn [omap]. rewrite bound_attr_copy. reflexivity.
 Qed.
 
 (* ------------------------------------------------------------------ <polygons>: vcounts from the <p> lengths *)
